@@ -1,7 +1,9 @@
 package main
 
 import (
+	"bufio"
 	"fmt"
+	"io"
 	"os"
 	"sort"
 
@@ -223,6 +225,57 @@ func (r *storeRun) op(t *toks) {
 			r.sf = sf
 			line(30, 0)
 		}
+	case 50:
+		// the next operation is cut after j storage steps: the image at that point replaces the
+		// file, which is then opened again read-write
+		j := int(t.next())
+		var snap []byte
+		count := 0
+		if j == 0 {
+			snap = r.file().VerifImage()
+		}
+		snapHook = func(db *syz.SpanFile, name string) {
+			count++
+			if count == j {
+				snap = db.VerifImage()
+			}
+		}
+		saved := out
+		out = bufio.NewWriter(io.Discard)
+		func() {
+			defer func() { recover() }()
+			r.op(t)
+		}()
+		out = saved
+		snapHook = nil
+		code = 50
+		if snap == nil {
+			snap = r.file().VerifImage()
+		}
+		if r.c != nil {
+			r.c.Close()
+		} else {
+			r.sf.Close()
+		}
+		if err := os.WriteFile(r.path, snap, 0644); err != nil {
+			panic(err)
+		}
+		if r.c != nil {
+			c, err := syz.NewCollection(syz.CollectionOptions{Name: r.path, FileMode: syz.ReadWrite})
+			if err != nil {
+				line(50, 1)
+				return
+			}
+			r.c = c
+		} else {
+			sf, err := syz.OpenFile(r.path, syz.ReadWrite)
+			if err != nil {
+				line(50, 1)
+				return
+			}
+			r.sf = sf
+		}
+		line(50, 0)
 	case 31:
 		r.stateLine()
 	case 32:
